@@ -43,23 +43,36 @@ def relevant(p):
 
 
 def enum(alpha, A, K, rel=True, family="main"):
-    return [{"family": family, "prog": [[list(op) for op in ops] for ops in p]}
-            for p in progs.programs(alpha, A, K, relevance=relevant if rel else None)]
+    cases = [{"family": family, "prog": [[list(op) for op in ops] for ops in p]}
+             for p in progs.programs(alpha, A, K, relevance=relevant if rel else None)]
+    # order only: programs hitting the two known crashes share packs (double kill time; exec of a1 suspended at its start)
+    cases.sort(key=lambda c: not any(sum(op[0] == "K1" for op in ops) >= 2 for ops in c["prog"]))
+    return cases
+
+
+MINI = alpha_of(["s1", "e2"], ["kill", "join", "susp", "res"])
+NODAEMON = alpha_of(["s1", "e2", "K1"], TARGETED)
 
 
 def bounds(tier):
     solo = alpha_of([n for (n,) in SOLO], [])
-    b = [("A=1 K<=3 (9 solo symbols)", lambda: enum(solo, 1, 3, rel=False) + enum(solo, 1, 2, rel=False) + enum(solo, 1, 1, rel=False)),
+    reboot = lambda A, K: enum(CTRL, A, K, rel=False, family="reboot")
+    b = [("A=1 K<=2 (9 solo symbols)", lambda: enum(solo, 1, 1, rel=False) + enum(solo, 1, 2, rel=False)),
          ("A=2 K=1 full", lambda: enum(FULL, 2, 1)),
-         ("reboot: victim + 1 controller K<=3", lambda: sum((enum(CTRL, 1, k, rel=False, family="reboot") for k in (1, 2, 3)), [])),
-         ("A=3 K=1 full", lambda: enum(FULL, 3, 1)),
-         ("A=2 K=2 core (4 solo + 5 targeted symbols)", lambda: enum(CORE, 2, 2))]
+         ("reboot: victim + 1 controller K<=2", lambda: reboot(1, 1) + reboot(1, 2)),
+         ("A=2 K=2 (s1, e2, kill, join, susp, res)", lambda: enum(MINI, 2, 2)),
+         ("A=3 K=1 (s1, e2, K1 + 5 targeted symbols)", lambda: enum(NODAEMON, 3, 1))]
     if tier == "quick":
         return b
-    return b + [("reboot: victim + 2 controllers K<=2", lambda: enum(CTRL, 2, 1, rel=False, family="reboot") + enum(CTRL, 2, 2, rel=False, family="reboot")),
-                ("A=2 K=2 full", lambda: enum(FULL, 2, 2)),
+    return b + [("A=3 K=1 core (4 solo + 5 targeted symbols)", lambda: enum(CORE, 3, 1)),
+                ("A=1 K=3 (9 solo symbols)", lambda: enum(solo, 1, 3, rel=False)),
+                ("reboot: victim + 1 controller K=3", lambda: reboot(1, 3)),
+                ("A=3 K=1 full", lambda: enum(FULL, 3, 1)),
+                ("A=2 K=2 core", lambda: enum(CORE, 2, 2)),
+                ("reboot: victim + 2 controllers K<=2", lambda: reboot(2, 1) + reboot(2, 2)),
                 ("A=3 K=2 (s1, kill, join)", lambda: enum(TINY, 3, 2)),
                 ("A=2 K=3 (s1, kill, join, susp, res)", lambda: enum(SMALL, 2, 3)),
+                ("A=2 K=2 full", lambda: enum(FULL, 2, 2)),
                 ("A=4 K=1 core", lambda: enum(CORE, 4, 1))]
 
 
